@@ -43,7 +43,9 @@ type scriptedConn struct{ d *scriptedPG }
 
 func (c *scriptedConn) Prepare(string) (driver.Stmt, error) { return nil, errors.New("not used") }
 func (c *scriptedConn) Close() error                        { return nil }
-func (c *scriptedConn) Begin() (driver.Tx, error)           { return c.BeginTx(context.Background(), driver.TxOptions{}) }
+func (c *scriptedConn) Begin() (driver.Tx, error) {
+	return c.BeginTx(context.Background(), driver.TxOptions{})
+}
 func (c *scriptedConn) BeginTx(context.Context, driver.TxOptions) (driver.Tx, error) {
 	c.d.mu.Lock()
 	defer c.d.mu.Unlock()
